@@ -125,7 +125,16 @@ func runC03(c *Ctx) {
 	} else {
 		why = "no OpenFile with O_CREATE|O_EXCL (and no existence probe selected by createhow3) in the CREATE call tree: GUARDED cannot fail with NFS3ERR_EXIST and EXCLUSIVE cannot detect a foreign file"
 	}
-	c.verdictIf(hasExcl && createHowDep, P, "excl", "tree=CREATE exclusive-create", p.pos(hc.Pos()), "exclusive creation selected by createhow3", why)
+	// alternative accepted design: the creating open is ALWAYS exclusive, and the handler turns the
+	// already-exists error into success only for modes other than GUARDED
+	if hasExcl && !createHowDep {
+		if ok2, why2 := guardedCannotSucceedOnExisting(p, hc); ok2 {
+			createHowDep = true
+		} else {
+			why = why2
+		}
+	}
+	c.verdictIf(hasExcl && createHowDep, P, "excl", "tree=CREATE exclusive-create", p.pos(hc.Pos()), "exclusive creation; GUARDED cannot succeed on an existing name", why)
 
 	// verf: [8]byte cell filled by io.ReadFull on the createHow==EXCLUSIVE edge
 	found := false
